@@ -404,7 +404,16 @@ func c12schema(c *xplore.Ctx) (*schemaMapper, string) {
 				desc = append(desc, fmt.Sprintf("%s.%s:%s", n, f, c12typeAlts[k-1]))
 			}
 		}
-		switch c.Choose(5) {
+		switch c.Choose(6) {
+		case 5:
+			// a wide measurement in which every field is shadowed by a tag of the same name: more than a dozen
+			// same-named pairs, so an unstable or name-only ordering shows as run-to-run differences
+			for i := 0; i < 14; i++ {
+				f := fmt.Sprintf("w%02d", i)
+				ms.Fields[f] = c12typeAlts[i%len(c12typeAlts)]
+				ms.Tags = append(ms.Tags, f)
+			}
+			desc = append(desc, n+".wide-shadowed")
 		case 1:
 			ms.Fields["host"] = influxql.Float // a field shadowing a tag
 			desc = append(desc, n+".+field host")
